@@ -219,3 +219,61 @@ def compile_then_queue_then_commit(conn, n, d, args):
         m3 = q3.measure()
     conn.flush()
     return int(m3)
+
+
+def qubit_history(conn, sock, handles, prims):
+    """run a sequence of qubit primitives on the handle list (mutated in place); 'flush' flushes"""
+    for p in prims:
+        kind = p[0]
+        if kind == "new":
+            handles.append(Qubit(conn))
+        elif kind == "x":
+            handles[p[1]].X()
+        elif kind == "cnot":
+            handles[p[1]].cnot(handles[p[2]])
+        elif kind == "meas_inplace":
+            handles[p[1]].measure(inplace=True)
+        elif kind == "meas":
+            handles[p[1]].measure()
+            handles.pop(p[1])
+        elif kind == "free":
+            handles[p[1]].free()
+            handles.pop(p[1])
+        elif kind == "create_keep":
+            handles.extend(sock.create_keep(number=p[1]))
+        elif kind == "recv_keep":
+            handles.extend(sock.recv_keep(number=p[1]))
+        elif kind == "flush":
+            conn.flush()
+        else:
+            raise ValueError(kind)
+    return handles
+
+
+def epr_context_measure(conn, sock):
+    with sock.create_context(number=2) as (q, pair):
+        q.measure()
+    conn.flush()
+
+
+def _noop_post(conn, q, pair):
+    q.H()
+
+
+def epr_receive(conn, sock, variant, number, expect_phi_plus, extra_qubits):
+    """receive entangled pairs in one of the API variants, with ``extra_qubits`` other qubits alive (shifts the virtual ids)"""
+    others = [Qubit(conn) for _ in range(extra_qubits)]
+    if variant == "recv_keep":
+        qs = sock.recv_keep(number=number, expect_phi_plus=expect_phi_plus)
+    elif variant == "recv_keep_with_info":
+        qs, _ = sock.recv_keep_with_info(number=number, expect_phi_plus=expect_phi_plus)
+    elif variant == "recv_keep_post":
+        qs = sock.recv_keep(number=number, sequential=True, post_routine=_noop_post, expect_phi_plus=expect_phi_plus)
+    elif variant == "recv_rsp":
+        qs = sock.recv_rsp(number=number, expect_phi_plus=expect_phi_plus)
+    elif variant == "recv_rsp_with_info":
+        qs, _ = sock.recv_rsp_with_info(number=number, expect_phi_plus=expect_phi_plus)
+    else:
+        raise ValueError(variant)
+    conn.flush()
+    return qs
